@@ -1,28 +1,54 @@
 package main
 
-// Translator for C11: collects, for every index / slice expression on a value derived from
-// Dispenser.RemainingArgs(), strings.Split*/Fields or a []string parameter, the length facts that
-// are in scope (switch len(x), if len(x) <op> k guards with early exits, loop bounds, x = x[1:])
-// and emits one Coq lemma per site:  forall lengths, facts -> 0 <= index < length,  proved by lia.
-// The translator only COLLECTS facts; lia judges. Anything it does not understand contributes no
-// fact (weaker premise), so an unknown shape can make an obligation unprovable, never provable.
+// Translator for C11. For every function of the packages that hold directive setup code it
+// collects, per program point, the facts that are syntactically in scope and emits one Coq lemma
+// per potentially panicking site, proved (or not) by lia:
+//
+//   slice  — index / slice expression on a []string derived from Dispenser.RemainingArgs(),
+//            strings.Split*/Fields, a []string literal or a []string parameter (every function);
+//   string — index / slice expression on a STRING value, in the functions reachable from a
+//            registered directive's setup function, from ValidateAndExecuteDirectives, from the
+//            parsing callbacks and from the http context (call graph by go/types, static calls and
+//            function values; interface calls are not followed);
+//   nil    — field access through a pointer that the function itself treats as possibly nil
+//            (compared with nil, declared without a value, assigned nil, left out of the
+//            composite literal that built its parent, or a parameter that some caller feeds
+//            with such a value), same reachable functions;
+//   map    — write into a map with the same "possibly nil" status.
+//
+// Facts: switch len(x) / if len(x) <op> k guards with early exits, loop bounds, x = x[k:],
+// s != "" / s == "lit", strings.HasPrefix/HasSuffix/Contains, i := strings.Index*(s, x) with its
+// range, strings.Trim*/TrimPrefix/TrimSuffix result lengths, concatenation, sub-string lengths,
+// p == nil / p != nil, p = &T{..} / new / make / a function that returns a fresh object on every
+// path, boolean flags assigned from such tests, and value joins after if / switch.
+// The translator only COLLECTS facts; lia judges. Whatever it does not understand contributes no
+// fact (weaker premise): an unknown shape can make an obligation unprovable, never provable.
 
 import (
 	"bytes"
-	"regexp"
 	"crypto/sha256"
 	"encoding/hex"
 	"encoding/json"
 	"fmt"
 	"go/ast"
+	"go/build"
+	"go/constant"
+	"go/importer"
 	"go/parser"
 	"go/printer"
 	"go/token"
+	"go/types"
+	"io"
 	"os"
+	"os/exec"
 	"path/filepath"
+	"regexp"
 	"sort"
+	"strconv"
 	"strings"
 )
+
+const c11Mod = "github.com/tmpim/casket"
 
 type c11Ob struct {
 	ID    string `json:"id"`
@@ -31,49 +57,576 @@ type c11Ob struct {
 	Func  string `json:"func"`
 	Expr  string `json:"expr"`
 	Hash  string `json:"func_hash"`
+	Kind  string `json:"kind"`
 	Lemma string `json:"lemma"`
 }
 
+// ---------------------------------------------------------------- loading (go/types)
+
+type c11World struct {
+	repo   string
+	fset   *token.FileSet
+	gc     types.Importer
+	export map[string]string
+	pkgs   map[string]*types.Package
+	infos  map[string]*types.Info
+	files  map[string][]*ast.File
+	order  []string
+	errs   []string
+
+	decls    map[*types.Func]*c11Fn
+	reach    map[*types.Func]bool
+	nonnil   map[*types.Func]bool         // every return yields a fresh object as first result
+	derefs   map[*types.Func]map[int]bool // pointer parameters the function reads a field through
+	tolerant map[*types.Func]map[int]bool // pointer / map parameters the function itself compares with nil
+	nilField map[*types.Var]bool             // struct fields that some function compares with nil or sets to nil
+	writes   map[*types.Func]map[string]bool // field names the function (or anything it calls) may assign; "*" = anything
+}
+
+type c11Fn struct {
+	decl *ast.FuncDecl
+	info *types.Info
+	pkg  string
+	file string
+}
+
+func (w *c11World) Import(path string) (*types.Package, error) {
+	if p, ok := w.pkgs[path]; ok {
+		return p, nil
+	}
+	if path == c11Mod || strings.HasPrefix(path, c11Mod+"/") {
+		return w.load(path)
+	}
+	p, err := w.gc.Import(path)
+	if err != nil {
+		return nil, err
+	}
+	w.pkgs[path] = p
+	return p, nil
+}
+
+func (w *c11World) load(path string) (*types.Package, error) {
+	dir := filepath.Join(w.repo, strings.TrimPrefix(strings.TrimPrefix(path, c11Mod), "/"))
+	ents, err := os.ReadDir(dir)
+	if err != nil {
+		return nil, err
+	}
+	bctx := build.Default
+	var files []*ast.File
+	for _, e := range ents {
+		n := e.Name()
+		if e.IsDir() || !strings.HasSuffix(n, ".go") || strings.HasSuffix(n, "_test.go") || strings.HasPrefix(n, "verif_export") {
+			continue
+		}
+		if ok, _ := bctx.MatchFile(dir, n); !ok {
+			continue
+		}
+		f, err := parser.ParseFile(w.fset, filepath.Join(dir, n), nil, 0)
+		if err != nil {
+			return nil, err
+		}
+		files = append(files, f)
+	}
+	info := &types.Info{Types: map[ast.Expr]types.TypeAndValue{}, Uses: map[*ast.Ident]types.Object{},
+		Defs: map[*ast.Ident]types.Object{}, Selections: map[*ast.SelectorExpr]*types.Selection{}}
+	conf := types.Config{Importer: w, Error: func(err error) { w.errs = append(w.errs, err.Error()) }}
+	p, _ := conf.Check(path, w.fset, files, info)
+	w.pkgs[path] = p
+	w.infos[path] = info
+	w.files[path] = files
+	w.order = append(w.order, path)
+	return p, nil
+}
+
+func c11Load(repo string) (*c11World, error) {
+	w := &c11World{repo: repo, fset: token.NewFileSet(), export: map[string]string{}, pkgs: map[string]*types.Package{},
+		infos: map[string]*types.Info{}, files: map[string][]*ast.File{}}
+	// export data of everything the repository imports (compiled by the harness build already)
+	cmd := exec.Command("go", "list", "-export", "-deps", "-f", "{{.ImportPath}} {{.Export}}",
+		"./caskethttp/...", "./caskettls/...", "./onevent/...", "./casketfile/...", ".")
+	cmd.Dir = repo
+	var stderr bytes.Buffer
+	cmd.Stderr = &stderr
+	out, err := cmd.Output()
+	if err != nil {
+		return nil, fmt.Errorf("go list -export: %v: %s", err, stderr.String())
+	}
+	for _, l := range strings.Split(string(out), "\n") {
+		f := strings.Fields(l)
+		if len(f) == 2 {
+			w.export[f[0]] = f[1]
+		}
+	}
+	w.gc = importer.ForCompiler(w.fset, "gc", func(path string) (io.ReadCloser, error) {
+		if f, ok := w.export[path]; ok {
+			return os.Open(f)
+		}
+		return nil, fmt.Errorf("no export data for %s", path)
+	})
+	var dirs []string
+	for _, d := range []string{"caskethttp", "caskettls", "onevent", "casketfile"} {
+		filepath.Walk(filepath.Join(repo, d), func(p string, i os.FileInfo, err error) error {
+			if err == nil && i.IsDir() {
+				dirs = append(dirs, p)
+			}
+			return nil
+		})
+	}
+	dirs = append(dirs, repo)
+	sort.Strings(dirs)
+	for _, d := range dirs {
+		g, _ := filepath.Glob(filepath.Join(d, "*.go"))
+		if len(g) == 0 {
+			continue
+		}
+		rel, _ := filepath.Rel(repo, d)
+		ip := c11Mod
+		if rel != "." {
+			ip += "/" + filepath.ToSlash(rel)
+		}
+		if _, err := w.Import(ip); err != nil {
+			return nil, err
+		}
+	}
+	if len(w.errs) > 0 {
+		return nil, fmt.Errorf("type errors while loading the repository (first: %s)", w.errs[0])
+	}
+	w.index()
+	return w, nil
+}
+
+// index builds the declaration table, the reachable set and the function summaries.
+func (w *c11World) index() {
+	w.decls = map[*types.Func]*c11Fn{}
+	for _, path := range w.order {
+		info := w.infos[path]
+		for _, f := range w.files[path] {
+			fname, _ := filepath.Rel(w.repo, w.fset.Position(f.Pos()).Filename)
+			for _, d := range f.Decls {
+				if fd, ok := d.(*ast.FuncDecl); ok && fd.Body != nil {
+					if o, ok := info.Defs[fd.Name].(*types.Func); ok {
+						w.decls[o] = &c11Fn{decl: fd, info: info, pkg: path, file: fname}
+					}
+				}
+			}
+		}
+	}
+	// reachability: roots = ValidateAndExecuteDirectives, the http context's InspectServerBlocks /
+	// MakeServers, every function mentioned in a RegisterPlugin / RegisterParsingCallback /
+	// RegisterServerType call; edges = every mention of a function (call or value)
+	w.reach = map[*types.Func]bool{}
+	var work []*types.Func
+	add := func(o *types.Func) {
+		if _, ok := w.decls[o]; ok && !w.reach[o] {
+			w.reach[o] = true
+			work = append(work, o)
+		}
+	}
+	for o, f := range w.decls {
+		n := o.Name()
+		if (f.pkg == c11Mod && n == "ValidateAndExecuteDirectives") || n == "InspectServerBlocks" || n == "MakeServers" {
+			add(o)
+		}
+		ast.Inspect(f.decl.Body, func(x ast.Node) bool {
+			call, ok := x.(*ast.CallExpr)
+			if !ok {
+				return true
+			}
+			se, ok := call.Fun.(*ast.SelectorExpr)
+			if !ok || (se.Sel.Name != "RegisterPlugin" && se.Sel.Name != "RegisterParsingCallback" && se.Sel.Name != "RegisterServerType") {
+				return true
+			}
+			for _, arg := range call.Args {
+				ast.Inspect(arg, func(y ast.Node) bool {
+					if id, ok := y.(*ast.Ident); ok {
+						if fo, ok := f.info.Uses[id].(*types.Func); ok {
+							add(fo)
+						}
+					}
+					return true
+				})
+			}
+			return true
+		})
+	}
+	for len(work) > 0 {
+		o := work[len(work)-1]
+		work = work[:len(work)-1]
+		f := w.decls[o]
+		ast.Inspect(f.decl.Body, func(x ast.Node) bool {
+			if id, ok := x.(*ast.Ident); ok {
+				if fo, ok := f.info.Uses[id].(*types.Func); ok {
+					add(fo)
+				}
+			}
+			return true
+		})
+	}
+	// nonnil summaries
+	w.nonnil = map[*types.Func]bool{}
+	for o, f := range w.decls {
+		sig := o.Type().(*types.Signature)
+		if sig.Results().Len() == 0 {
+			continue
+		}
+		all, n := true, 0
+		ast.Inspect(f.decl.Body, func(x ast.Node) bool {
+			switch v := x.(type) {
+			case *ast.FuncLit:
+				return false
+			case *ast.ReturnStmt:
+				n++
+				if len(v.Results) == 0 || !freshObject(v.Results[0]) {
+					all = false
+				}
+			}
+			return true
+		})
+		if all && n > 0 {
+			w.nonnil[o] = true
+		}
+	}
+	// fields of pointer / map type that the code itself treats as possibly nil somewhere
+	w.nilField = map[*types.Var]bool{}
+	for _, f := range w.decls {
+		isNil := func(e ast.Expr) bool { id, ok := e.(*ast.Ident); return ok && id.Name == "nil" }
+		markF := func(e ast.Expr) {
+			if se, ok := e.(*ast.SelectorExpr); ok {
+				if sel, ok := f.info.Selections[se]; ok && sel.Kind() == types.FieldVal {
+					if v, ok := sel.Obj().(*types.Var); ok && nilable(v.Type()) && isMapT(v.Type()) {
+						w.nilField[v] = true
+					}
+				}
+			}
+		}
+		ast.Inspect(f.decl.Body, func(x ast.Node) bool {
+			switch v := x.(type) {
+			case *ast.BinaryExpr:
+				if v.Op == token.EQL || v.Op == token.NEQ {
+					if isNil(v.Y) {
+						markF(v.X)
+					} else if isNil(v.X) {
+						markF(v.Y)
+					}
+				}
+			case *ast.AssignStmt:
+				if len(v.Lhs) == len(v.Rhs) {
+					for i, r := range v.Rhs {
+						if isNil(r) {
+							markF(v.Lhs[i])
+						}
+					}
+				}
+			}
+			return true
+		})
+	}
+	// parameter summaries: which pointer parameters are dereferenced, which are tested against nil
+	w.derefs = map[*types.Func]map[int]bool{}
+	w.tolerant = map[*types.Func]map[int]bool{}
+	for o, f := range w.decls {
+		sig := o.Type().(*types.Signature)
+		pidx := map[types.Object]int{}
+		for i := 0; i < sig.Params().Len(); i++ {
+			pidx[sig.Params().At(i)] = i
+		}
+		w.derefs[o], w.tolerant[o] = map[int]bool{}, map[int]bool{}
+		isNil := func(e ast.Expr) bool { id, ok := e.(*ast.Ident); return ok && id.Name == "nil" }
+		param := func(e ast.Expr) (int, bool) {
+			if id, ok := e.(*ast.Ident); ok {
+				if i, ok := pidx[f.info.Uses[id]]; ok {
+					return i, true
+				}
+			}
+			return 0, false
+		}
+		ast.Inspect(f.decl.Body, func(x ast.Node) bool {
+			switch v := x.(type) {
+			case *ast.SelectorExpr:
+				if sel, ok := f.info.Selections[v]; ok && sel.Kind() == types.FieldVal {
+					if i, ok := param(v.X); ok {
+						w.derefs[o][i] = true
+					}
+				}
+			case *ast.StarExpr:
+				if i, ok := param(v.X); ok {
+					w.derefs[o][i] = true
+				}
+			case *ast.BinaryExpr:
+				if v.Op == token.EQL || v.Op == token.NEQ {
+					if isNil(v.Y) {
+						if i, ok := param(v.X); ok {
+							w.tolerant[o][i] = true
+						}
+					} else if isNil(v.X) {
+						if i, ok := param(v.Y); ok {
+							w.tolerant[o][i] = true
+						}
+					}
+				}
+			}
+			return true
+		})
+	}
+	// write sets (field names), closed over static calls
+	w.writes = map[*types.Func]map[string]bool{}
+	for o, f := range w.decls {
+		a := &c11An{w: w, fset: w.fset, info: f.info}
+		a.prepare(f.decl, o)
+		w.writes[o] = a.directWrites(f.decl.Body)
+	}
+	for changed := true; changed; {
+		changed = false
+		for o, f := range w.decls {
+			ws := w.writes[o]
+			if ws["*"] {
+				continue
+			}
+			a := &c11An{w: w, fset: w.fset, info: f.info}
+			ast.Inspect(f.decl.Body, func(x ast.Node) bool {
+				if call, ok := x.(*ast.CallExpr); ok {
+					if callee := a.callee(call); callee != nil && w.decls[callee] != nil {
+						for k := range w.writes[callee] {
+							if !ws[k] {
+								ws[k] = true
+								changed = true
+							}
+						}
+					}
+				}
+				return true
+			})
+		}
+	}
+}
+
+// freshObject: &T{..}, new(T), make(..), T{..} of map type — never nil
+func freshObject(e ast.Expr) bool {
+	switch v := e.(type) {
+	case *ast.ParenExpr:
+		return freshObject(v.X)
+	case *ast.UnaryExpr:
+		if v.Op == token.AND {
+			_, ok := v.X.(*ast.CompositeLit)
+			return ok
+		}
+	case *ast.CallExpr:
+		if id, ok := v.Fun.(*ast.Ident); ok && (id.Name == "new" || id.Name == "make") {
+			return true
+		}
+	case *ast.CompositeLit:
+		if _, ok := v.Type.(*ast.MapType); ok {
+			return true
+		}
+	}
+	return false
+}
+
+func nilable(t types.Type) bool {
+	if t == nil {
+		return false
+	}
+	switch u := t.Underlying().(type) {
+	case *types.Pointer:
+		_, ok := u.Elem().Underlying().(*types.Struct)
+		return ok
+	case *types.Map:
+		return true
+	}
+	return false
+}
+
+func isMapT(t types.Type) bool {
+	if t == nil {
+		return false
+	}
+	_, ok := t.Underlying().(*types.Map)
+	return ok
+}
+
+func isStringT(t types.Type) bool {
+	if t == nil {
+		return false
+	}
+	b, ok := t.Underlying().(*types.Basic)
+	return ok && b.Info()&types.IsString != 0
+}
+func isIntT(t types.Type) bool {
+	if t == nil {
+		return false
+	}
+	b, ok := t.Underlying().(*types.Basic)
+	return ok && b.Info()&types.IsInteger != 0
+}
+func isBoolT(t types.Type) bool {
+	if t == nil {
+		return false
+	}
+	b, ok := t.Underlying().(*types.Basic)
+	return ok && b.Info()&types.IsBoolean != 0
+}
+func isStrSliceT(t types.Type) bool {
+	if t == nil {
+		return false
+	}
+	s, ok := t.Underlying().(*types.Slice)
+	return ok && isStringT(s.Elem())
+}
+
+// ---------------------------------------------------------------- contexts
+
 type c11Ctx struct {
-	env   map[string]string // go slice variable -> current length symbol
-	ints  map[string]string // go int variable -> symbol (created lazily; dropped on assignment)
-	atoms map[string]string // pure boolean expression text -> Prop symbol (dropped when a mentioned identifier is assigned)
+	env   map[string]string // []string variable -> length symbol
+	ints  map[string]string // int variable -> symbol
+	atoms map[string]string // pure boolean expression text -> Prop symbol
+	strs  map[string]string // string-valued path (x, x.f, x[0]) -> length symbol
+	nils  map[string]string // pointer / map valued path -> symbol (0 = nil, 1 = allocated)
 	facts []string
 }
 
-func newCtx() c11Ctx {
-	return c11Ctx{env: map[string]string{}, ints: map[string]string{}, atoms: map[string]string{}}
+func newCtx() *c11Ctx {
+	return &c11Ctx{env: map[string]string{}, ints: map[string]string{}, atoms: map[string]string{}, strs: map[string]string{}, nils: map[string]string{}}
 }
 
-func (c c11Ctx) clone() c11Ctx {
-	n := c11Ctx{env: map[string]string{}, ints: map[string]string{}, atoms: map[string]string{}, facts: append([]string(nil), c.facts...)}
-	for k, v := range c.env {
-		n.env[k] = v
-	}
-	for k, v := range c.atoms {
-		n.atoms[k] = v
-	}
-	for k, v := range c.ints {
-		n.ints[k] = v
+func cloneMap(m map[string]string) map[string]string {
+	n := make(map[string]string, len(m))
+	for k, v := range m {
+		n[k] = v
 	}
 	return n
 }
 
+func (c *c11Ctx) clone() *c11Ctx {
+	return &c11Ctx{env: cloneMap(c.env), ints: cloneMap(c.ints), atoms: cloneMap(c.atoms), strs: cloneMap(c.strs), nils: cloneMap(c.nils),
+		facts: append([]string(nil), c.facts...)}
+}
+
+func (c *c11Ctx) add(f ...string) {
+	for _, x := range f {
+		if x != "" {
+			c.facts = append(c.facts, x)
+		}
+	}
+}
+
+func (c *c11Ctx) maps() []map[string]string {
+	return []map[string]string{c.env, c.ints, c.strs, c.nils}
+}
+
+var identRe = map[string]*regexp.Regexp{}
+
+func wordRe(n string) *regexp.Regexp {
+	re, ok := identRe[n]
+	if !ok {
+		re = regexp.MustCompile(`(^|[^A-Za-z0-9_])` + regexp.QuoteMeta(n) + `($|[^A-Za-z0-9_])`)
+		identRe[n] = re
+	}
+	return re
+}
+
+// forget drops everything known about a variable (and about every path or expression that mentions it).
+func (c *c11Ctx) forget(n string) {
+	re := wordRe(n)
+	for _, m := range []map[string]string{c.env, c.ints, c.atoms, c.strs, c.nils} {
+		for k := range m {
+			if k == n || re.MatchString(k) {
+				delete(m, k)
+			}
+		}
+	}
+}
+
+func (c *c11Ctx) havoc(names map[string]bool) {
+	for n, whole := range names {
+		if whole {
+			c.forget(n)
+		} else {
+			c.forgetBelow(n)
+		}
+	}
+}
+
+// forgetBelow: something was stored through n (n.f = .., n[i] = ..): n itself keeps its value
+func (c *c11Ctx) forgetBelow(n string) {
+	re := wordRe(n)
+	for _, m := range []map[string]string{c.atoms, c.strs, c.nils} {
+		for k := range m {
+			if k != n && re.MatchString(k) {
+				delete(m, k)
+			}
+		}
+	}
+}
+
+// dropPaths forgets every fact about memory that a callee could reach: field and element paths.
+func (c *c11Ctx) dropPaths() {
+	for _, m := range []map[string]string{c.atoms, c.strs, c.nils} {
+		for k := range m {
+			if strings.ContainsAny(k, ".[") {
+				delete(m, k)
+			}
+		}
+	}
+}
+
+var fieldRe = regexp.MustCompile(`\.([A-Za-z_][A-Za-z0-9_]*)`)
+
+// dropWritten forgets the facts about paths that a call with the given write set may have changed.
+func (c *c11Ctx) dropWritten(ws map[string]bool) {
+	if len(ws) == 0 {
+		return
+	}
+	if ws["*"] {
+		c.dropPaths()
+		return
+	}
+	for _, m := range []map[string]string{c.atoms, c.strs, c.nils} {
+		for k := range m {
+			if strings.Contains(k, "[") {
+				delete(m, k)
+				continue
+			}
+			for _, f := range fieldRe.FindAllStringSubmatch(k, -1) {
+				if ws[f[1]] {
+					delete(m, k)
+					break
+				}
+			}
+		}
+	}
+}
+
+// ---------------------------------------------------------------- per-function analysis
+
 type c11An struct {
+	w      *c11World
 	fset   *token.FileSet
+	info   *types.Info
 	file   string
 	fn     string
 	fnHash string
+	reach  bool
 	nsym   int
 	syms   []string
 	props  []string
 	obs    []c11Ob
+
+	unstable map[string]bool // variables assigned inside a closure or whose address is taken: never tracked
+	closures map[string]*ast.FuncLit // local name := func(..) {..}, assigned once
+	suspects map[string]bool // pointer / map paths the function treats as possibly nil
 }
 
 func (a *c11An) fresh(base string) string {
 	a.nsym++
 	s := fmt.Sprintf("%s_%d", sanitize(base), a.nsym)
 	a.syms = append(a.syms, s)
+	return s
+}
+
+func (a *c11An) freshProp() string {
+	a.nsym++
+	s := fmt.Sprintf("P_%d", a.nsym)
+	a.props = append(a.props, s)
 	return s
 }
 
@@ -95,22 +648,511 @@ func exprStr(fset *token.FileSet, e ast.Node) string {
 	return buf.String()
 }
 
-// intTerm translates an int expression into a Coq Z term if it only involves literals, len(x) of
-// tracked slices, known int variables, + and -.
-func (a *c11An) intTerm(e ast.Expr, c c11Ctx) (string, bool) {
+func (a *c11An) typeOf(e ast.Expr) types.Type {
+	if a.info == nil {
+		return nil
+	}
+	if tv, ok := a.info.Types[e]; ok && tv.Type != nil {
+		return tv.Type
+	}
+	if id, ok := e.(*ast.Ident); ok {
+		if o := a.info.ObjectOf(id); o != nil {
+			return o.Type()
+		}
+	}
+	return nil
+}
+
+func (a *c11An) constInt(e ast.Expr) (string, bool) {
+	if tv, ok := a.info.Types[e]; ok && tv.Value != nil && tv.Value.Kind() == constant.Int {
+		if v, ok := constant.Int64Val(tv.Value); ok {
+			if v < 0 {
+				return fmt.Sprintf("(%d)", v), true
+			}
+			return fmt.Sprint(v), true
+		}
+	}
+	return "", false
+}
+
+func (a *c11An) constStr(e ast.Expr) (string, bool) {
+	if tv, ok := a.info.Types[e]; ok && tv.Value != nil && tv.Value.Kind() == constant.String {
+		return constant.StringVal(tv.Value), true
+	}
+	return "", false
+}
+
+func (a *c11An) localVar(id *ast.Ident) bool {
+	if id.Name == "_" || a.unstable[id.Name] {
+		return false
+	}
+	v, ok := a.info.ObjectOf(id).(*types.Var)
+	if !ok || v.IsField() {
+		return false
+	}
+	return v.Pkg() == nil || v.Parent() != v.Pkg().Scope() // not a package-level variable
+}
+
+// pathKey names a piece of memory by its source text: local variable, field path, constant element.
+func (a *c11An) pathKey(e ast.Expr) string {
+	switch v := e.(type) {
+	case *ast.ParenExpr:
+		return a.pathKey(v.X)
+	case *ast.Ident:
+		if a.localVar(v) {
+			return v.Name
+		}
+	case *ast.SelectorExpr:
+		if sel, ok := a.info.Selections[v]; ok && sel.Kind() == types.FieldVal {
+			if b := a.pathKey(v.X); b != "" {
+				return b + "." + v.Sel.Name
+			}
+		}
+	case *ast.IndexExpr:
+		if t := a.typeOf(v.X); t != nil {
+			if _, ok := t.Underlying().(*types.Slice); ok {
+				if b := a.pathKey(v.X); b != "" {
+					if k, ok := a.constInt(v.Index); ok {
+						return b + "[" + k + "]"
+					}
+				}
+			}
+		}
+	}
+	return ""
+}
+
+// callee resolves a static call.
+func (a *c11An) callee(call *ast.CallExpr) *types.Func {
+	var id *ast.Ident
+	switch f := call.Fun.(type) {
+	case *ast.Ident:
+		id = f
+	case *ast.SelectorExpr:
+		id = f.Sel
+	case *ast.ParenExpr:
+		if i, ok := f.X.(*ast.Ident); ok {
+			id = i
+		}
+	}
+	if id == nil {
+		return nil
+	}
+	fo, _ := a.info.Uses[id].(*types.Func)
+	return fo
+}
+
+func (a *c11An) calleeName(call *ast.CallExpr) string {
+	if fo := a.callee(call); fo != nil && fo.Pkg() != nil {
+		if sig := fo.Type().(*types.Signature); sig.Recv() == nil {
+			return fo.Pkg().Path() + "." + fo.Name()
+		}
+		return "method." + fo.Name()
+	}
+	if id, ok := call.Fun.(*ast.Ident); ok {
+		if _, ok := a.info.Uses[id].(*types.Builtin); ok {
+			return "builtin." + id.Name
+		}
+	}
+	return ""
+}
+
+// directWrites: the field names a piece of code assigns itself (x.f = .., x.f++, &x.f), plus "*" when it
+// calls something whose effect is unknown (a function value, a method of one of the repository's interfaces).
+// Static calls into the repository are added by the fixpoint in index() / by callWrites.
+func (a *c11An) directWrites(n ast.Node) map[string]bool {
+	ws := map[string]bool{}
+	field := func(e ast.Expr) {
+		for {
+			switch v := e.(type) {
+			case *ast.ParenExpr:
+				e = v.X
+				continue
+			case *ast.IndexExpr:
+				e = v.X
+				continue
+			case *ast.StarExpr:
+				ws["*"] = true // store through a pointer
+			case *ast.SelectorExpr:
+				ws[v.Sel.Name] = true
+			}
+			return
+		}
+	}
+	ast.Inspect(n, func(x ast.Node) bool {
+		switch v := x.(type) {
+		case *ast.AssignStmt:
+			for _, l := range v.Lhs {
+				if _, ok := l.(*ast.Ident); !ok {
+					field(l)
+				}
+			}
+		case *ast.IncDecStmt:
+			if _, ok := v.X.(*ast.Ident); !ok {
+				field(v.X)
+			}
+		case *ast.RangeStmt:
+			for _, l := range []ast.Expr{v.Key, v.Value} {
+				if l != nil {
+					if _, ok := l.(*ast.Ident); !ok {
+						field(l)
+					}
+				}
+			}
+		case *ast.UnaryExpr:
+			if v.Op == token.AND {
+				if se, ok := v.X.(*ast.SelectorExpr); ok {
+					ws[se.Sel.Name] = true
+				}
+			}
+		case *ast.CallExpr:
+			if a.unknownCall(v) {
+				ws["*"] = true
+			}
+		}
+		return true
+	})
+	return ws
+}
+
+// unknownCall: neither a conversion, a builtin, a static call, a call of a local closure, nor a method of a
+// foreign interface / foreign function (which has no pointer into the repository's structures).
+func (a *c11An) unknownCall(call *ast.CallExpr) bool {
+	if tv, ok := a.info.Types[call.Fun]; ok && tv.IsType() {
+		return false
+	}
+	if strings.HasPrefix(a.calleeName(call), "builtin.") {
+		return false
+	}
+	if fo := a.callee(call); fo != nil {
+		sig := fo.Type().(*types.Signature)
+		if sig.Recv() != nil {
+			if _, isIface := sig.Recv().Type().Underlying().(*types.Interface); isIface {
+				return fo.Pkg() != nil && strings.HasPrefix(fo.Pkg().Path(), c11Mod)
+			}
+		}
+		return false
+	}
+	if id, ok := call.Fun.(*ast.Ident); ok && a.closures != nil && a.closures[id.Name] != nil {
+		return false
+	}
+	return true
+}
+
+// callWrites: what one call may assign.
+func (a *c11An) callWrites(call *ast.CallExpr) map[string]bool {
+	ws := map[string]bool{}
+	addAll := func(m map[string]bool) {
+		for k := range m {
+			ws[k] = true
+		}
+	}
+	if a.unknownCall(call) {
+		ws["*"] = true
+		return ws
+	}
+	if fo := a.callee(call); fo != nil && a.w != nil {
+		addAll(a.w.writes[fo])
+	} else if id, ok := call.Fun.(*ast.Ident); ok && a.closures != nil && a.closures[id.Name] != nil {
+		addAll(a.bodyWrites(a.closures[id.Name].Body, 0))
+	}
+	// functions handed over as arguments may run inside the callee
+	for _, arg := range call.Args {
+		switch v := arg.(type) {
+		case *ast.FuncLit:
+			addAll(a.bodyWrites(v.Body, 0))
+		case *ast.Ident:
+			if fo, ok := a.info.Uses[v].(*types.Func); ok && a.w != nil {
+				addAll(a.w.writes[fo])
+			} else if a.closures != nil && a.closures[v.Name] != nil {
+				addAll(a.bodyWrites(a.closures[v.Name].Body, 0))
+			}
+		}
+	}
+	return ws
+}
+
+// bodyWrites: write set of a statement / closure body including its calls.
+func (a *c11An) bodyWrites(n ast.Node, depth int) map[string]bool {
+	ws := map[string]bool{}
+	if n == nil || depth > 3 {
+		if depth > 3 {
+			ws["*"] = true
+		}
+		return ws
+	}
+	for k := range a.directWrites(n) {
+		ws[k] = true
+	}
+	ast.Inspect(n, func(x ast.Node) bool {
+		if call, ok := x.(*ast.CallExpr); ok {
+			if fo := a.callee(call); fo != nil && a.w != nil {
+				for k := range a.w.writes[fo] {
+					ws[k] = true
+				}
+			} else if id, ok := call.Fun.(*ast.Ident); ok && a.closures != nil && a.closures[id.Name] != nil {
+				for k := range a.bodyWrites(a.closures[id.Name].Body, depth+1) {
+					ws[k] = true
+				}
+			}
+		}
+		return true
+	})
+	return ws
+}
+
+// prepare computes the variables that must not be tracked and the possibly-nil paths.
+func (a *c11An) prepare(fd *ast.FuncDecl, fo *types.Func) {
+	a.unstable = map[string]bool{}
+	a.suspects = map[string]bool{}
+	a.closures = map[string]*ast.FuncLit{}
+	nassign := map[string]int{}
+	ast.Inspect(fd.Body, func(x ast.Node) bool {
+		if as, ok := x.(*ast.AssignStmt); ok {
+			for i, l := range as.Lhs {
+				if id, ok := l.(*ast.Ident); ok {
+					nassign[id.Name]++
+					if len(as.Lhs) == len(as.Rhs) {
+						if fl, ok := as.Rhs[i].(*ast.FuncLit); ok {
+							a.closures[id.Name] = fl
+						}
+					}
+				}
+			}
+		}
+		if vs, ok := x.(*ast.ValueSpec); ok {
+			for _, id := range vs.Names {
+				nassign[id.Name]++
+			}
+		}
+		return true
+	})
+	for n := range a.closures {
+		if nassign[n] != 1 {
+			delete(a.closures, n)
+		}
+	}
+	ast.Inspect(fd.Body, func(x ast.Node) bool {
+		switch v := x.(type) {
+		case *ast.FuncLit:
+			// captured variables the closure assigns (its own locals are tracked inside it as usual)
+			ast.Inspect(v.Body, func(y ast.Node) bool {
+				var lhs []ast.Expr
+				switch st := y.(type) {
+				case *ast.AssignStmt:
+					lhs = st.Lhs
+				case *ast.IncDecStmt:
+					lhs = []ast.Expr{st.X}
+				case *ast.RangeStmt:
+					lhs = []ast.Expr{st.Key, st.Value}
+				}
+				for _, l := range lhs {
+					if id, ok := l.(*ast.Ident); ok && id.Name != "_" {
+						if o := a.info.ObjectOf(id); o != nil && (o.Pos() < v.Pos() || o.Pos() > v.End()) {
+							a.unstable[id.Name] = true
+						}
+					}
+				}
+				return true
+			})
+		case *ast.UnaryExpr:
+			if v.Op == token.AND {
+				if id, ok := v.X.(*ast.Ident); ok {
+					a.unstable[id.Name] = true
+				}
+			}
+		}
+		return true
+	})
+	// variables declared inside a closure are local to it; only captured ones matter, but a name is a name:
+	// being conservative here only loses facts
+	isNil := func(e ast.Expr) bool { id, ok := e.(*ast.Ident); return ok && id.Name == "nil" }
+	mark := func(e ast.Expr) {
+		if nilable(a.typeOf(e)) {
+			if k := a.pathKey(e); k != "" {
+				a.suspects[k] = true
+			}
+		}
+	}
+	ast.Inspect(fd.Body, func(x ast.Node) bool {
+		switch v := x.(type) {
+		case *ast.SelectorExpr:
+			if sel, ok := a.info.Selections[v]; ok && sel.Kind() == types.FieldVal && a.w != nil {
+				if fv, ok := sel.Obj().(*types.Var); ok && a.w.nilField[fv] {
+					mark(v)
+				}
+			}
+		case *ast.BinaryExpr:
+			if v.Op == token.EQL || v.Op == token.NEQ {
+				if isNil(v.Y) {
+					mark(v.X)
+				} else if isNil(v.X) {
+					mark(v.Y)
+				}
+			}
+		case *ast.AssignStmt:
+			if len(v.Lhs) == len(v.Rhs) {
+				for i, r := range v.Rhs {
+					if isNil(r) {
+						mark(v.Lhs[i])
+					}
+					// x := &T{...} / T{...}: nilable fields the literal leaves out are nil
+					if id, ok := v.Lhs[i].(*ast.Ident); ok && a.localVar(id) {
+						a.literalFields(id.Name, r, func(path string, present bool, val ast.Expr) {
+							if !present {
+								a.suspects[path] = true
+							}
+						})
+					}
+				}
+			}
+		case *ast.ValueSpec:
+			if len(v.Values) == 0 {
+				for _, n := range v.Names {
+					mark(n)
+				}
+			}
+		}
+		return true
+	})
+}
+
+// literalFields walks x := &T{..} / T{..} (and nested struct literals) and reports every nilable field.
+func (a *c11An) literalFields(base string, e ast.Expr, f func(path string, present bool, val ast.Expr)) {
+	if u, ok := e.(*ast.UnaryExpr); ok && u.Op == token.AND {
+		e = u.X
+	}
+	cl, ok := e.(*ast.CompositeLit)
+	if !ok {
+		return
+	}
+	t := a.typeOf(cl)
+	if t == nil {
+		return
+	}
+	st, ok := t.Underlying().(*types.Struct)
+	if !ok {
+		return
+	}
+	given := map[string]ast.Expr{}
+	for i, el := range cl.Elts {
+		if kv, ok := el.(*ast.KeyValueExpr); ok {
+			if id, ok := kv.Key.(*ast.Ident); ok {
+				given[id.Name] = kv.Value
+			}
+		} else if i < st.NumFields() {
+			given[st.Field(i).Name()] = el
+		}
+	}
+	for i := 0; i < st.NumFields(); i++ {
+		fl := st.Field(i)
+		val, present := given[fl.Name()]
+		if nilable(fl.Type()) {
+			f(base+"."+fl.Name(), present, val)
+		}
+		if present {
+			a.literalFields(base+"."+fl.Name(), val, f)
+		}
+	}
+}
+
+// ---- terms
+
+func (a *c11An) strSym(key string, c *c11Ctx) string {
+	if s, ok := c.strs[key]; ok {
+		return s
+	}
+	s := a.fresh("len_" + key)
+	c.strs[key] = s
+	c.add("0 <= " + s)
+	return s
+}
+
+func (a *c11An) nilSym(key string, c *c11Ctx) string {
+	if s, ok := c.nils[key]; ok {
+		return s
+	}
+	s := a.fresh("alloc_" + key)
+	c.nils[key] = s
+	c.add("0 <= " + s + " <= 1")
+	return s
+}
+
+var c11TrimFuncs = map[string]bool{"strings.TrimSpace": true, "strings.Trim": true, "strings.TrimLeft": true, "strings.TrimRight": true,
+	"strings.TrimFunc": true, "strings.TrimLeftFunc": true, "strings.TrimRightFunc": true}
+
+// strLen: Coq term for len(e), e a string expression. Always succeeds (unknown => fresh non-negative symbol).
+func (a *c11An) strLen(e ast.Expr, c *c11Ctx) string {
+	if s, ok := a.constStr(e); ok {
+		return fmt.Sprint(len(s))
+	}
+	switch v := e.(type) {
+	case *ast.ParenExpr:
+		return a.strLen(v.X, c)
+	case *ast.BinaryExpr:
+		if v.Op == token.ADD {
+			return "(" + a.strLen(v.X, c) + " + " + a.strLen(v.Y, c) + ")"
+		}
+	case *ast.SliceExpr:
+		if isStringT(a.typeOf(v.X)) && v.Max == nil {
+			lo, hi := "0", ""
+			ok := true
+			if v.Low != nil {
+				lo, ok = a.intTerm(v.Low, c)
+			}
+			if ok {
+				if v.High != nil {
+					hi, ok = a.intTerm(v.High, c)
+				} else {
+					hi = a.strLen(v.X, c)
+				}
+			}
+			if ok {
+				return "(" + hi + " - " + lo + ")"
+			}
+		}
+	case *ast.CallExpr:
+		n := a.calleeName(v)
+		switch {
+		case (n == "strings.TrimPrefix" || n == "strings.TrimSuffix") && len(v.Args) == 2:
+			ls, lp := a.strLen(v.Args[0], c), a.strLen(v.Args[1], c)
+			t := a.fresh("trimmed")
+			c.add("0 <= "+t, t+" <= "+ls, ls+" - "+lp+" <= "+t)
+			return t
+		case c11TrimFuncs[n] && len(v.Args) >= 1:
+			ls := a.strLen(v.Args[0], c)
+			t := a.fresh("trimmed")
+			c.add("0 <= "+t, t+" <= "+ls)
+			return t
+		case (n == "path.Clean" || n == "path/filepath.Clean") && len(v.Args) == 1:
+			t := a.fresh("cleaned")
+			c.add("1 <= " + t)
+			return t
+		}
+	}
+	if k := a.pathKey(e); k != "" {
+		return a.strSym(k, c)
+	}
+	t := a.fresh("len")
+	c.add("0 <= " + t)
+	return t
+}
+
+// intTerm translates an int expression into a Coq Z term: constants, len(x) of tracked slices and of
+// strings, known int variables, + and -.
+func (a *c11An) intTerm(e ast.Expr, c *c11Ctx) (string, bool) {
+	if k, ok := a.constInt(e); ok {
+		return k, true
+	}
 	switch v := e.(type) {
 	case *ast.ParenExpr:
 		return a.intTerm(v.X, c)
-	case *ast.BasicLit:
-		if v.Kind == token.INT {
-			return v.Value, true
-		}
 	case *ast.Ident:
 		if s, ok := c.ints[v.Name]; ok {
 			return s, true
 		}
-		if _, isSlice := c.env[v.Name]; !isSlice && v.Name != "nil" && v.Name != "true" && v.Name != "false" && v.Name != "_" && v.Obj != nil && v.Obj.Kind == ast.Var {
-			// an int-valued local used in a comparison: a symbol that lives until the variable is assigned
+		if isIntT(a.typeOf(v)) && a.localVar(v) {
+			// an int-valued local: a symbol that lives until the variable is assigned
 			s := a.fresh(v.Name)
 			c.ints[v.Name] = s
 			return s, true
@@ -122,9 +1164,21 @@ func (a *c11An) intTerm(e ast.Expr, c c11Ctx) (string, bool) {
 					return s, true
 				}
 			}
+			if isStringT(a.typeOf(v.Args[0])) {
+				return a.strLen(v.Args[0], c), true
+			}
+		}
+		// int(x) / int64(x) of a term
+		if tv, ok := a.info.Types[v.Fun]; ok && tv.IsType() && isIntT(tv.Type) && len(v.Args) == 1 && isIntT(a.typeOf(v.Args[0])) {
+			if b, ok := tv.Type.Underlying().(*types.Basic); ok && (b.Kind() == types.Int || b.Kind() == types.Int64) {
+				return a.intTerm(v.Args[0], c)
+			}
 		}
 	case *ast.BinaryExpr:
 		if v.Op == token.ADD || v.Op == token.SUB {
+			if !isIntT(a.typeOf(v)) {
+				return "", false
+			}
 			l, ok1 := a.intTerm(v.X, c)
 			r, ok2 := a.intTerm(v.Y, c)
 			if ok1 && ok2 {
@@ -139,8 +1193,38 @@ func (a *c11An) intTerm(e ast.Expr, c c11Ctx) (string, bool) {
 	return "", false
 }
 
+// indexFacts: i := strings.Index*(s, x) — returns the facts about the result symbol.
+func (a *c11An) indexCall(e ast.Expr, c *c11Ctx) (string, bool) {
+	call, ok := e.(*ast.CallExpr)
+	if !ok {
+		return "", false
+	}
+	n := a.calleeName(call)
+	switch n {
+	case "strings.Index", "strings.LastIndex":
+		if len(call.Args) == 2 {
+			ls, lx := a.strLen(call.Args[0], c), a.strLen(call.Args[1], c)
+			i := a.fresh("idx")
+			c.add(fmt.Sprintf("(%s = -1 \\/ (0 <= %s /\\ %s + %s <= %s))", i, i, i, lx, ls))
+			return i, true
+		}
+	case "strings.IndexByte", "strings.IndexRune", "strings.IndexAny", "strings.LastIndexByte", "strings.LastIndexAny", "strings.IndexFunc", "strings.LastIndexFunc":
+		if len(call.Args) == 2 {
+			ls := a.strLen(call.Args[0], c)
+			i := a.fresh("idx")
+			c.add(fmt.Sprintf("(%s = -1 \\/ (0 <= %s /\\ %s + 1 <= %s))", i, i, i, ls))
+			return i, true
+		}
+	case "strings.Count":
+		i := a.fresh("count")
+		c.add("0 <= " + i)
+		return i, true
+	}
+	return "", false
+}
+
 // cond returns facts that hold when e is true / false ("" = nothing known).
-func (a *c11An) cond(e ast.Expr, c c11Ctx) (pos, neg string) {
+func (a *c11An) cond(e ast.Expr, c *c11Ctx) (pos, neg string) {
 	switch v := e.(type) {
 	case *ast.ParenExpr:
 		return a.cond(v.X, c)
@@ -148,6 +1232,18 @@ func (a *c11An) cond(e ast.Expr, c c11Ctx) (pos, neg string) {
 		if v.Op == token.NOT {
 			p, n := a.cond(v.X, c)
 			return n, p
+		}
+	case *ast.CallExpr:
+		n := a.calleeName(v)
+		switch {
+		case (n == "strings.HasPrefix" || n == "strings.HasSuffix" || n == "strings.Contains") && len(v.Args) == 2:
+			ls, lp := a.strLen(v.Args[0], c), a.strLen(v.Args[1], c)
+			p, ng := a.atom(e, c)
+			return conj(p, "("+lp+" <= "+ls+")"), ng
+		case (n == "strings.ContainsRune" || n == "strings.ContainsAny") && len(v.Args) == 2:
+			ls := a.strLen(v.Args[0], c)
+			p, ng := a.atom(e, c)
+			return conj(p, "(1 <= "+ls+")"), ng
 		}
 	case *ast.BinaryExpr:
 		switch v.Op {
@@ -168,6 +1264,48 @@ func (a *c11An) cond(e ast.Expr, c c11Ctx) (pos, neg string) {
 			}
 			return
 		case token.EQL, token.NEQ, token.LSS, token.LEQ, token.GTR, token.GEQ:
+			// p == nil / p != nil on a possibly-nil path
+			if v.Op == token.EQL || v.Op == token.NEQ {
+				x, y := v.X, v.Y
+				if id, ok := x.(*ast.Ident); ok && id.Name == "nil" {
+					x, y = y, x
+				}
+				if id, ok := y.(*ast.Ident); ok && id.Name == "nil" {
+					if k := a.pathKey(x); k != "" && a.suspects[k] && nilable(a.typeOf(x)) {
+						s := a.nilSym(k, c)
+						p, ng := "("+s+" = 0)", "("+s+" <> 0)"
+						if v.Op == token.NEQ {
+							p, ng = ng, p
+						}
+						return p, ng
+					}
+					return a.atom(e, c)
+				}
+				// string comparison: equal strings have equal lengths
+				if isStringT(a.typeOf(v.X)) && isStringT(a.typeOf(v.Y)) {
+					lx, ly := a.strLen(v.X, c), a.strLen(v.Y, c)
+					eq := "(" + lx + " = " + ly + ")"
+					var p, ng string
+					if sx, ok := a.constStr(v.Y); ok && sx == "" {
+						p, ng = eq, "("+lx+" <> "+ly+")"
+					} else if sx, ok := a.constStr(v.X); ok && sx == "" {
+						p, ng = eq, "("+lx+" <> "+ly+")"
+					} else {
+						ap, an := a.atom(e, c)
+						if v.Op == token.NEQ {
+							ap, an = an, ap
+						}
+						p, ng = conj(ap, eq), an
+					}
+					if v.Op == token.NEQ {
+						p, ng = ng, p
+					}
+					return p, ng
+				}
+			}
+			if !isIntT(a.typeOf(v.X)) || !isIntT(a.typeOf(v.Y)) {
+				return a.atom(e, c)
+			}
 			l, ok1 := a.intTerm(v.X, c)
 			r, ok2 := a.intTerm(v.Y, c)
 			if !ok1 || !ok2 {
@@ -185,17 +1323,34 @@ func (a *c11An) cond(e ast.Expr, c c11Ctx) (pos, neg string) {
 
 // atom: a pure boolean expression the translator does not interpret becomes an opaque Prop
 // variable (same text => same variable until one of its identifiers is assigned).
-func (a *c11An) atom(e ast.Expr, c c11Ctx) (string, string) {
+func (a *c11An) atom(e ast.Expr, c *c11Ctx) (string, string) {
 	pure := true
 	ast.Inspect(e, func(n ast.Node) bool {
-		switch n.(type) {
-		case *ast.CallExpr, *ast.FuncLit, *ast.UnaryExpr:
-			if u, ok := n.(*ast.UnaryExpr); ok && u.Op == token.NOT {
-				return true
+		switch v := n.(type) {
+		case *ast.CallExpr:
+			nm := a.calleeName(v)
+			if !(strings.HasPrefix(nm, "strings.Has") || strings.HasPrefix(nm, "strings.Contains") || nm == "builtin.len") {
+				pure = false
 			}
+		case *ast.FuncLit:
 			pure = false
-		case *ast.IndexExpr, *ast.SliceExpr, *ast.StarExpr:
+		case *ast.UnaryExpr:
+			if v.Op != token.NOT && v.Op != token.SUB {
+				pure = false
+			}
+		case *ast.SliceExpr, *ast.StarExpr:
 			pure = false
+		case *ast.IndexExpr:
+			if a.pathKey(v) == "" {
+				pure = false
+			}
+		case *ast.Ident:
+			if a.unstable[v.Name] {
+				pure = false
+			}
+			if o, ok := a.info.ObjectOf(v).(*types.Var); ok && !o.IsField() && o.Pkg() != nil && o.Parent() == o.Pkg().Scope() {
+				pure = false // package-level variable
+			}
 		}
 		return pure
 	})
@@ -209,13 +1364,6 @@ func (a *c11An) atom(e ast.Expr, c c11Ctx) (string, string) {
 		c.atoms[key] = sym
 	}
 	return sym, "(~ " + sym + ")"
-}
-
-func (a *c11An) freshProp() string {
-	a.nsym++
-	s := fmt.Sprintf("P_%d", a.nsym)
-	a.props = append(a.props, s)
-	return s
 }
 
 func conj(a, b string) string {
@@ -250,6 +1398,18 @@ func terminates(stmts []ast.Stmt) bool {
 
 // source recognises expressions that produce a fresh []string and returns its base facts.
 func (a *c11An) source(e ast.Expr) (string, []string, bool) {
+	if cl, ok := e.(*ast.CompositeLit); ok && isStrSliceT(a.typeOf(cl)) {
+		keyed := false
+		for _, el := range cl.Elts {
+			if _, ok := el.(*ast.KeyValueExpr); ok {
+				keyed = true
+			}
+		}
+		if !keyed {
+			s := a.fresh("lit")
+			return s, []string{fmt.Sprintf("%s = %d", s, len(cl.Elts))}, true
+		}
+	}
 	call, ok := e.(*ast.CallExpr)
 	if !ok {
 		return "", nil, false
@@ -276,28 +1436,39 @@ func (a *c11An) source(e ast.Expr) (string, []string, bool) {
 	return "", nil, false
 }
 
+// assignedIdents: every name assigned, incremented, declared or bound by a range inside n (true),
+// and every name that is only stored THROUGH (x.f = .., x[i] = .., *x = ..: false).
 func assignedIdents(n ast.Node) map[string]bool {
 	out := map[string]bool{}
 	if n == nil {
 		return out
 	}
+	lhs := func(l ast.Expr) {
+		if id, ok := l.(*ast.Ident); ok {
+			out[id.Name] = true
+		} else if id := rootIdent(l); id != nil {
+			if !out[id.Name] {
+				out[id.Name] = false
+			}
+		}
+	}
 	ast.Inspect(n, func(x ast.Node) bool {
 		switch s := x.(type) {
 		case *ast.AssignStmt:
 			for _, l := range s.Lhs {
-				if id, ok := l.(*ast.Ident); ok {
-					out[id.Name] = true
-				}
+				lhs(l)
 			}
 		case *ast.IncDecStmt:
-			if id, ok := s.X.(*ast.Ident); ok {
-				out[id.Name] = true
-			}
+			lhs(s.X)
 		case *ast.RangeStmt:
 			for _, l := range []ast.Expr{s.Key, s.Value} {
-				if id, ok := l.(*ast.Ident); ok {
-					out[id.Name] = true
+				if l != nil {
+					lhs(l)
 				}
+			}
+		case *ast.ValueSpec:
+			for _, id := range s.Names {
+				out[id.Name] = true
 			}
 		}
 		return true
@@ -305,32 +1476,46 @@ func assignedIdents(n ast.Node) map[string]bool {
 	return out
 }
 
-func (c *c11Ctx) havoc(names map[string]bool) {
-	for n := range names {
-		c.forget(n)
-	}
-}
-
-var identRe = map[string]*regexp.Regexp{}
-
-func (c *c11Ctx) forget(n string) {
-	delete(c.env, n)
-	delete(c.ints, n)
-	re, ok := identRe[n]
-	if !ok {
-		re = regexp.MustCompile(`\b` + regexp.QuoteMeta(n) + `\b`)
-		identRe[n] = re
-	}
-	for k := range c.atoms {
-		if re.MatchString(k) {
-			delete(c.atoms, k)
+// rootIdent: x for x, x.f, x[i], *x — an assignment through any of them changes what the name stands for
+func rootIdent(e ast.Expr) *ast.Ident {
+	for {
+		switch v := e.(type) {
+		case *ast.Ident:
+			return v
+		case *ast.SelectorExpr:
+			e = v.X
+		case *ast.IndexExpr:
+			e = v.X
+		case *ast.StarExpr:
+			e = v.X
+		case *ast.ParenExpr:
+			e = v.X
+		default:
+			return nil
 		}
 	}
 }
 
-// scan collects obligations from every index/slice expression inside an expression/statement
-// that is evaluated under ctx c (closures are analysed with no facts).
-func (a *c11An) scan(n ast.Node, c c11Ctx) {
+// declaredIdents: names introduced (:=, var, range :=) directly or deeper inside n
+func (a *c11An) declaredIdents(n ast.Node) map[string]bool {
+	out := map[string]bool{}
+	if n == nil {
+		return out
+	}
+	ast.Inspect(n, func(x ast.Node) bool {
+		if id, ok := x.(*ast.Ident); ok {
+			if _, isDef := a.info.Defs[id]; isDef {
+				out[id.Name] = true
+			}
+		}
+		return true
+	})
+	return out
+}
+
+// scan collects obligations from every index/slice/dereference inside an expression that is
+// evaluated under ctx c (closures are analysed with no facts), in evaluation order.
+func (a *c11An) scan(n ast.Node, c *c11Ctx) {
 	if n == nil {
 		return
 	}
@@ -339,83 +1524,451 @@ func (a *c11An) scan(n ast.Node, c c11Ctx) {
 		case *ast.FuncLit:
 			a.block(v.Body.List, newCtx())
 			return false
+		case *ast.CallExpr:
+			a.scan(v.Fun, c)
+			for _, arg := range v.Args {
+				a.scan(arg, c)
+			}
+			a.nilArgCheck(v, c)
+			c.dropWritten(a.callWrites(v))
+			return false
 		case *ast.BinaryExpr:
 			if v.Op == token.LAND || v.Op == token.LOR {
 				// short-circuit evaluation: the right operand runs under the left one's outcome
 				a.scan(v.X, c)
 				pos, neg := a.cond(v.X, c)
 				rc := c.clone()
-				if v.Op == token.LAND && pos != "" {
-					rc.facts = append(rc.facts, pos)
-				}
-				if v.Op == token.LOR && neg != "" {
-					rc.facts = append(rc.facts, neg)
+				if v.Op == token.LAND {
+					rc.add(pos)
+				} else {
+					rc.add(neg)
 				}
 				a.scan(v.Y, rc)
 				return false
 			}
+		case *ast.SelectorExpr:
+			a.derefCheck(v, c)
 		case *ast.IndexExpr:
-			if id, ok := v.X.(*ast.Ident); ok {
-				if sym, ok := c.env[id.Name]; ok {
-					idx, known := a.intTerm(v.Index, c)
-					if !known {
-						idx = a.fresh("unknown_index")
-					}
-					a.emit(v, c, fmt.Sprintf("0 <= %s < %s", idx, sym))
-				}
-			}
+			a.indexCheck(v, c)
 		case *ast.SliceExpr:
-			if id, ok := v.X.(*ast.Ident); ok {
-				if sym, ok := c.env[id.Name]; ok {
-					lo, hi := "0", sym
-					if v.Low != nil {
-						if t, ok := a.intTerm(v.Low, c); ok {
-							lo = t
-						} else {
-							lo = a.fresh("unknown_low")
-						}
-					}
-					if v.High != nil {
-						if t, ok := a.intTerm(v.High, c); ok {
-							hi = t
-						} else {
-							hi = a.fresh("unknown_high")
-						}
-					}
-					a.emit(v, c, fmt.Sprintf("0 <= %s /\\ %s <= %s /\\ %s <= %s", lo, lo, hi, hi, sym))
-				}
-			}
+			a.sliceCheck(v, c)
 		}
 		return true
 	})
 }
 
-func (a *c11An) emit(n ast.Node, c c11Ctx, goal string) {
+// nilArgCheck: a possibly-nil path handed to a repository function that reads fields through that parameter
+// without ever testing it against nil — the callee's (implicit) precondition is checked at the call.
+func (a *c11An) nilArgCheck(call *ast.CallExpr, c *c11Ctx) {
+	if !a.reach || a.w == nil {
+		return
+	}
+	fo := a.callee(call)
+	if fo == nil || a.w.decls[fo] == nil {
+		return
+	}
+	for i, arg := range call.Args {
+		if !a.w.derefs[fo][i] || a.w.tolerant[fo][i] || !nilable(a.typeOf(arg)) {
+			continue
+		}
+		if k := a.pathKey(arg); k != "" && a.suspects[k] {
+			a.emit(arg, c, "nil", a.nilSym(k, c)+" <> 0")
+		}
+	}
+}
+
+func (a *c11An) derefCheck(v *ast.SelectorExpr, c *c11Ctx) {
+	if !a.reach {
+		return
+	}
+	sel, ok := a.info.Selections[v]
+	if !ok || sel.Kind() != types.FieldVal {
+		return
+	}
+	t := a.typeOf(v.X)
+	if t == nil {
+		return
+	}
+	if _, isPtr := t.Underlying().(*types.Pointer); !isPtr {
+		return
+	}
+	if k := a.pathKey(v.X); k != "" && a.suspects[k] {
+		a.emit(v, c, "nil", a.nilSym(k, c)+" <> 0")
+	}
+}
+
+func (a *c11An) mapWriteCheck(l ast.Expr, c *c11Ctx) {
+	ix, ok := l.(*ast.IndexExpr)
+	if !ok || !a.reach {
+		return
+	}
+	t := a.typeOf(ix.X)
+	if t == nil {
+		return
+	}
+	if _, isMap := t.Underlying().(*types.Map); !isMap {
+		return
+	}
+	if k := a.pathKey(ix.X); k != "" && a.suspects[k] {
+		a.emit(ix, c, "map", a.nilSym(k, c)+" <> 0")
+	}
+}
+
+func (a *c11An) indexCheck(v *ast.IndexExpr, c *c11Ctx) {
+	sym := ""
+	kind := "slice"
+	if id, ok := v.X.(*ast.Ident); ok {
+		sym = c.env[id.Name]
+	}
+	if sym == "" && a.reach && isStringT(a.typeOf(v.X)) {
+		if _, isConst := a.constStr(v.X); isConst {
+			if _, ok := a.constInt(v.Index); ok {
+				return // constant index into a constant string: checked by the compiler
+			}
+		}
+		sym, kind = a.strLen(v.X, c), "string"
+	}
+	if sym == "" {
+		return
+	}
+	idx, known := a.intTerm(v.Index, c)
+	if !known {
+		idx = a.fresh("unknown_index")
+	}
+	a.emit(v, c, kind, fmt.Sprintf("0 <= %s < %s", idx, sym))
+}
+
+func (a *c11An) sliceCheck(v *ast.SliceExpr, c *c11Ctx) {
+	sym := ""
+	kind := "slice"
+	if id, ok := v.X.(*ast.Ident); ok {
+		sym = c.env[id.Name]
+	}
+	if sym == "" && a.reach && isStringT(a.typeOf(v.X)) {
+		sym, kind = a.strLen(v.X, c), "string"
+	}
+	if sym == "" {
+		return
+	}
+	lo, hi := "0", sym
+	if v.Low != nil {
+		if t, ok := a.intTerm(v.Low, c); ok {
+			lo = t
+		} else {
+			lo = a.fresh("unknown_low")
+		}
+	}
+	if v.High != nil {
+		if t, ok := a.intTerm(v.High, c); ok {
+			hi = t
+		} else {
+			hi = a.fresh("unknown_high")
+		}
+	}
+	a.emit(v, c, kind, fmt.Sprintf("0 <= %s /\\ %s <= %s /\\ %s <= %s", lo, lo, hi, hi, sym))
+}
+
+func (a *c11An) emit(n ast.Node, c *c11Ctx, kind, goal string) {
 	pos := a.fset.Position(n.Pos())
 	id := fmt.Sprintf("ob_%s_%d_%d", strings.TrimPrefix(sanitize(strings.TrimSuffix(a.file, ".go")), "v"), pos.Line, pos.Column)
-	vars := append([]string(nil), a.syms...)
+	// quantify over the symbols the statement mentions only (keeps the lemmas readable)
+	text := strings.Join(c.facts, " ") + " " + goal
+	var vars, props []string
+	for _, s := range a.syms {
+		if wordRe(s).MatchString(text) {
+			vars = append(vars, s)
+		}
+	}
+	for _, p := range a.props {
+		if wordRe(p).MatchString(text) {
+			props = append(props, p)
+		}
+	}
 	var sb strings.Builder
-	fmt.Fprintf(&sb, "Lemma %s : forall (%s : Z)", id, strings.Join(vars, " "))
-	if len(a.props) > 0 {
-		fmt.Fprintf(&sb, " (%s : Prop)", strings.Join(a.props, " "))
+	fmt.Fprintf(&sb, "Lemma %s : forall", id)
+	if len(vars) > 0 {
+		fmt.Fprintf(&sb, " (%s : Z)", strings.Join(vars, " "))
+	}
+	if len(props) > 0 {
+		fmt.Fprintf(&sb, " (%s : Prop)", strings.Join(props, " "))
+	}
+	if len(vars) == 0 && len(props) == 0 {
+		sb.WriteString(" (_ : unit)")
 	}
 	sb.WriteString(", ")
 	for _, f := range c.facts {
 		sb.WriteString(f + " -> ")
 	}
 	sb.WriteString(goal + ".\nProof. intros; first [lia | intuition lia]. Qed.\n")
-	a.obs = append(a.obs, c11Ob{ID: id, File: a.file, Line: pos.Line, Func: a.fn, Expr: exprStr(a.fset, n), Hash: a.fnHash, Lemma: sb.String()})
+	a.obs = append(a.obs, c11Ob{ID: id, File: a.file, Line: pos.Line, Func: a.fn, Expr: exprStr(a.fset, n), Hash: a.fnHash, Kind: kind, Lemma: sb.String()})
 }
 
-func (a *c11An) block(stmts []ast.Stmt, c c11Ctx) c11Ctx {
+func (a *c11An) block(stmts []ast.Stmt, c *c11Ctx) *c11Ctx {
 	c = c.clone()
 	for _, st := range stmts {
-		c = a.stmt(st, c)
+		a.stmt(st, c)
 	}
 	return c
 }
 
-func (a *c11An) stmt(st ast.Stmt, c c11Ctx) c11Ctx {
+// nilness of an expression assigned to a possibly-nil path: 1 allocated, 0 nil, "" unknown
+func (a *c11An) allocTerm(e ast.Expr, c *c11Ctx) string {
+	if id, ok := e.(*ast.Ident); ok && id.Name == "nil" {
+		return "0"
+	}
+	if freshObject(e) {
+		return "1"
+	}
+	if call, ok := e.(*ast.CallExpr); ok {
+		if fo := a.callee(call); fo != nil && a.w != nil && a.w.nonnil[fo] {
+			return "1"
+		}
+	}
+	if k := a.pathKey(e); k != "" {
+		if s, ok := c.nils[k]; ok {
+			return s
+		}
+	}
+	return ""
+}
+
+type c11Upd struct {
+	apply func(c *c11Ctx)
+}
+
+// assign handles one lhs = rhs pair: computes what is known about the new value in the OLD
+// context and returns the update to apply after all right-hand sides have been evaluated.
+func (a *c11An) assign(l, r ast.Expr, tok token.Token, c *c11Ctx) func(c *c11Ctx) {
+	id, isIdent := l.(*ast.Ident)
+	if isIdent && id.Name == "_" {
+		return nil
+	}
+	t := a.typeOf(l)
+	key := a.pathKey(l)
+	root := rootIdent(l)
+	forgetAll := func(c *c11Ctx) {
+		if isIdent {
+			c.forget(id.Name)
+		} else if key != "" {
+			c.forget(key)
+		} else if root != nil {
+			// a store through an index / pointer we cannot name: everything below the root may have changed
+			c.forgetBelow(root.Name)
+		}
+	}
+	if r == nil || key == "" {
+		return forgetAll
+	}
+	switch {
+	case isStrSliceT(t) && isIdent && (tok == token.ASSIGN || tok == token.DEFINE):
+		if sym, facts, ok := a.source(r); ok {
+			return func(c *c11Ctx) { forgetAll(c); c.env[id.Name] = sym; c.add(facts...) }
+		}
+		// x = y[k:]  (re-slicing a tracked slice)
+		if se, ok := r.(*ast.SliceExpr); ok {
+			if base, ok := se.X.(*ast.Ident); ok {
+				if bs, ok := c.env[base.Name]; ok && se.High == nil && se.Low != nil {
+					if lo, ok := a.intTerm(se.Low, c); ok {
+						ns := a.fresh(id.Name)
+						f := fmt.Sprintf("%s = %s - %s", ns, bs, lo)
+						return func(c *c11Ctx) { forgetAll(c); c.env[id.Name] = ns; c.add(f) }
+					}
+				}
+			}
+		}
+	case isStringT(t):
+		var term string
+		switch tok {
+		case token.ASSIGN, token.DEFINE:
+			term = a.strLen(r, c)
+		case token.ADD_ASSIGN:
+			term = "(" + a.strLen(l, c) + " + " + a.strLen(r, c) + ")"
+		}
+		if term != "" {
+			ns := a.fresh("len_" + key)
+			return func(c *c11Ctx) { forgetAll(c); c.strs[key] = ns; c.add(ns + " = " + term) }
+		}
+	case isIntT(t) && isIdent:
+		var term string
+		var ok bool
+		switch tok {
+		case token.ASSIGN, token.DEFINE:
+			if term, ok = a.indexCall(r, c); !ok {
+				term, ok = a.intTerm(r, c)
+			}
+		case token.ADD_ASSIGN, token.SUB_ASSIGN:
+			var lt, rt string
+			var ok1, ok2 bool
+			lt, ok1 = a.intTerm(l, c)
+			rt, ok2 = a.intTerm(r, c)
+			if ok = ok1 && ok2; ok {
+				op := " + "
+				if tok == token.SUB_ASSIGN {
+					op = " - "
+				}
+				term = "(" + lt + op + rt + ")"
+			}
+		}
+		if ok && a.localVar(id) {
+			ns := a.fresh(id.Name)
+			return func(c *c11Ctx) { forgetAll(c); c.ints[id.Name] = ns; c.add(ns + " = " + term) }
+		}
+	case isBoolT(t) && isIdent && (tok == token.ASSIGN || tok == token.DEFINE) && a.localVar(id):
+		if lit, ok := r.(*ast.Ident); ok && (lit.Name == "true" || lit.Name == "false") {
+			p := a.freshProp()
+			f := p
+			if lit.Name == "false" {
+				f = "(~ " + p + ")"
+			}
+			return func(c *c11Ctx) { forgetAll(c); c.atoms[id.Name] = p; c.add(f) }
+		}
+		pos, neg := a.cond(r, c)
+		if pos != "" || neg != "" {
+			p := a.freshProp()
+			var fs []string
+			if pos != "" {
+				fs = append(fs, "("+p+" -> "+pos+")")
+			}
+			if neg != "" {
+				fs = append(fs, "((~ "+p+") -> "+neg+")")
+			}
+			return func(c *c11Ctx) { forgetAll(c); c.atoms[id.Name] = p; c.add(fs...) }
+		}
+	case nilable(t) && a.suspects[key] && (tok == token.ASSIGN || tok == token.DEFINE):
+		term := a.allocTerm(r, c)
+		// fields of a struct literal: x := &T{f: make(..)} / fields left out
+		return func(c *c11Ctx) {
+			forgetAll(c)
+			if term != "" {
+				ns := a.fresh("alloc_" + key)
+				c.nils[key] = ns
+				c.add("0 <= "+ns+" <= 1", ns+" = "+term)
+			}
+		}
+	}
+	return forgetAll
+}
+
+// literalFacts: after x := &T{...}, every possibly-nil field path of x gets its allocation status.
+func (a *c11An) literalFacts(name string, r ast.Expr, c *c11Ctx) {
+	a.literalFields(name, r, func(path string, present bool, val ast.Expr) {
+		if !a.suspects[path] {
+			return
+		}
+		term := "0"
+		if present {
+			term = a.allocTerm(val, c)
+		}
+		delete(c.nils, path)
+		if term != "" {
+			ns := a.fresh("alloc_" + path)
+			c.nils[path] = ns
+			c.add("0 <= "+ns+" <= 1", ns+" = "+term)
+		}
+	})
+}
+
+type c11End struct {
+	c    *c11Ctx
+	decl map[string]bool
+	base int // number of facts the branch context started with (those are the shared ones)
+}
+
+// join merges the contexts at the end of the branches of an if / switch into c (which must be the
+// context before the branching, and becomes the context after it).
+func (a *c11An) join(c *c11Ctx, ends []c11End) {
+	if len(ends) == 0 {
+		return // every branch left: what follows is unreachable
+	}
+	if len(ends) == 1 {
+		e := ends[0]
+		for n := range e.decl {
+			e.c.forget(n)
+		}
+		*c = *e.c
+		return
+	}
+	bm := c.maps()
+	type change struct {
+		m   int
+		key string
+	}
+	var changes []change
+	seen := map[string]bool{}
+	for _, e := range ends {
+		for n := range e.decl {
+			e.c.forget(n)
+			c.forget(n)
+		}
+	}
+	for _, e := range ends {
+		for mi, m := range e.c.maps() {
+			for k, v := range m {
+				if bm[mi][k] != v && !seen[fmt.Sprint(mi, k)] {
+					seen[fmt.Sprint(mi, k)] = true
+					changes = append(changes, change{mi, k})
+				}
+			}
+			for k := range bm[mi] {
+				if _, ok := m[k]; !ok && !seen[fmt.Sprint(mi, k)] {
+					seen[fmt.Sprint(mi, k)] = true
+					changes = append(changes, change{mi, k})
+				}
+			}
+		}
+	}
+	sort.Slice(changes, func(i, j int) bool {
+		if changes[i].m != changes[j].m {
+			return changes[i].m < changes[j].m
+		}
+		return changes[i].key < changes[j].key
+	})
+	// atoms that differ are dropped
+	for k, v := range c.atoms {
+		for _, e := range ends {
+			if e.c.atoms[k] != v {
+				delete(c.atoms, k)
+				break
+			}
+		}
+	}
+	disj := make([][]string, len(ends))
+	for i, e := range ends {
+		added := e.c.facts[e.base:]
+		if len(added) > 10 {
+			added = added[:10]
+		}
+		disj[i] = append(disj[i], added...)
+	}
+	joined := false
+	for _, ch := range changes {
+		all := true
+		for _, e := range ends {
+			if _, ok := e.c.maps()[ch.m][ch.key]; !ok {
+				all = false
+			}
+		}
+		if !all || len(ends) > 6 {
+			delete(bm[ch.m], ch.key)
+			continue
+		}
+		ns := a.fresh("j_" + ch.key)
+		for i, e := range ends {
+			disj[i] = append(disj[i], ns+" = "+e.c.maps()[ch.m][ch.key])
+		}
+		bm[ch.m][ch.key] = ns
+		joined = true
+	}
+	if joined {
+		var ds []string
+		for _, d := range disj {
+			ds = append(ds, "("+strings.Join(d, " /\\ ")+")")
+		}
+		c.add("(" + strings.Join(ds, " \\/ ") + ")")
+	}
+}
+
+func (a *c11An) stmt(st ast.Stmt, c *c11Ctx) {
 	switch s := st.(type) {
 	case *ast.AssignStmt:
 		for _, r := range s.Rhs {
@@ -423,48 +1976,62 @@ func (a *c11An) stmt(st ast.Stmt, c c11Ctx) c11Ctx {
 		}
 		for _, l := range s.Lhs {
 			if _, ok := l.(*ast.Ident); !ok {
-				a.scan(l, c)
+				// the left-hand side is evaluated too: x.f = .. dereferences x, m[k] = .. writes m
+				switch lv := l.(type) {
+				case *ast.IndexExpr:
+					a.scan(lv.X, c)
+					a.scan(lv.Index, c)
+					if t := a.typeOf(lv.X); t != nil {
+						if _, isMap := t.Underlying().(*types.Map); isMap {
+							a.mapWriteCheck(lv, c)
+						} else {
+							a.indexCheck(lv, c)
+						}
+					}
+				default:
+					a.scan(l, c)
+				}
+			}
+		}
+		var ups []func(*c11Ctx)
+		if len(s.Lhs) == len(s.Rhs) {
+			for i, l := range s.Lhs {
+				ups = append(ups, a.assign(l, s.Rhs[i], s.Tok, c))
+			}
+		} else {
+			for _, l := range s.Lhs {
+				ups = append(ups, a.assign(l, nil, s.Tok, c))
+			}
+		}
+		for _, u := range ups {
+			if u != nil {
+				u(c)
 			}
 		}
 		if len(s.Lhs) == len(s.Rhs) {
 			for i, l := range s.Lhs {
-				id, ok := l.(*ast.Ident)
-				if !ok {
-					continue
-				}
-				if sym, facts, ok := a.source(s.Rhs[i]); ok {
-					c.forget(id.Name)
-					c.env[id.Name] = sym
-					c.facts = append(c.facts, facts...)
-					continue
-				}
-				// x = x[k:]  (re-slicing a tracked slice)
-				if se, ok := s.Rhs[i].(*ast.SliceExpr); ok {
-					if base, ok := se.X.(*ast.Ident); ok {
-						if bs, ok := c.env[base.Name]; ok && se.High == nil && se.Low != nil {
-							if lo, ok := a.intTerm(se.Low, c); ok {
-								ns := a.fresh(id.Name)
-								c.facts = append(c.facts, fmt.Sprintf("%s = %s - %s", ns, bs, lo))
-								c.forget(id.Name)
-								c.env[id.Name] = ns
-								continue
-							}
-						}
-					}
-				}
-				c.forget(id.Name)
-			}
-		} else {
-			for _, l := range s.Lhs {
-				if id, ok := l.(*ast.Ident); ok {
-					c.forget(id.Name)
+				if id, ok := l.(*ast.Ident); ok && a.localVar(id) {
+					a.literalFacts(id.Name, s.Rhs[i], c)
 				}
 			}
 		}
 	case *ast.IncDecStmt:
 		a.scan(s.X, c)
 		if id, ok := s.X.(*ast.Ident); ok {
-			c.forget(id.Name)
+			if old, ok := c.ints[id.Name]; ok && a.localVar(id) {
+				ns := a.fresh(id.Name)
+				op := " + 1"
+				if s.Tok == token.DEC {
+					op = " - 1"
+				}
+				c.forget(id.Name)
+				c.ints[id.Name] = ns
+				c.add(ns + " = " + old + op)
+			} else {
+				c.forget(id.Name)
+			}
+		} else if ix, ok := s.X.(*ast.IndexExpr); ok {
+			a.mapWriteCheck(ix, c)
 		}
 	case *ast.ExprStmt:
 		a.scan(s.X, c)
@@ -473,85 +2040,140 @@ func (a *c11An) stmt(st ast.Stmt, c c11Ctx) c11Ctx {
 			a.scan(r, c)
 		}
 	case *ast.DeclStmt:
-		a.scan(s, c)
 		if gd, ok := s.Decl.(*ast.GenDecl); ok {
 			for _, sp := range gd.Specs {
-				if vs, ok := sp.(*ast.ValueSpec); ok {
-					for i, n := range vs.Names {
-						delete(c.env, n.Name)
-						if i < len(vs.Values) {
-							if sym, facts, ok := a.source(vs.Values[i]); ok {
-								c.env[n.Name] = sym
-								c.facts = append(c.facts, facts...)
-							}
+				vs, ok := sp.(*ast.ValueSpec)
+				if !ok {
+					continue
+				}
+				for _, v := range vs.Values {
+					a.scan(v, c)
+				}
+				var ups []func(*c11Ctx)
+				for i, n := range vs.Names {
+					if len(vs.Values) == len(vs.Names) {
+						ups = append(ups, a.assign(n, vs.Values[i], token.DEFINE, c))
+						continue
+					}
+					name, t := n.Name, a.typeOf(n)
+					local := a.localVar(n)
+					ups = append(ups, func(c *c11Ctx) {
+						c.forget(name)
+						if len(vs.Values) != 0 || !local {
+							return
 						}
+						// zero value
+						switch {
+						case isStringT(t):
+							ns := a.fresh("len_" + name)
+							c.strs[name] = ns
+							c.add(ns + " = 0")
+						case isIntT(t):
+							ns := a.fresh(name)
+							c.ints[name] = ns
+							c.add(ns + " = 0")
+						case isBoolT(t):
+							p := a.freshProp()
+							c.atoms[name] = p
+							c.add("(~ " + p + ")")
+						case isStrSliceT(t):
+							ns := a.fresh(name)
+							c.env[name] = ns
+							c.add(ns + " = 0")
+						case nilable(t) && a.suspects[name]:
+							ns := a.fresh("alloc_" + name)
+							c.nils[name] = ns
+							c.add(ns + " = 0")
+						}
+					})
+				}
+				for _, u := range ups {
+					if u != nil {
+						u(c)
 					}
 				}
 			}
 		}
 	case *ast.BlockStmt:
 		inner := a.block(s.List, c)
-		c.havoc(assignedIdents(s))
-		_ = inner
+		a.join(c, []c11End{{inner, a.declaredIdents(s), len(c.facts)}})
 	case *ast.LabeledStmt:
-		return a.stmt(s.Stmt, c)
+		// a label is a jump target: nothing is known on arrival
+		c.havoc(assignedIdents(s.Stmt))
+		a.stmt(s.Stmt, c)
 	case *ast.IfStmt:
+		outerDecl := map[string]bool{}
 		if s.Init != nil {
-			c = a.stmt(s.Init, c)
+			a.stmt(s.Init, c)
+			outerDecl = a.declaredIdents(s.Init)
 		}
 		a.scan(s.Cond, c)
 		pos, neg := a.cond(s.Cond, c)
 		tc := c.clone()
-		if pos != "" {
-			tc.facts = append(tc.facts, pos)
+		tbase := len(tc.facts)
+		tc.add(pos)
+		tEnd := a.block(s.Body.List, tc)
+		var ends []c11End
+		if !terminates(s.Body.List) {
+			ends = append(ends, c11End{tEnd, a.declaredIdents(s.Body), tbase})
 		}
-		a.block(s.Body.List, tc)
-		thenTerm := terminates(s.Body.List)
-		elseTerm := false
+		ec := c.clone()
+		ebase := len(ec.facts)
+		ec.add(neg)
 		if s.Else != nil {
-			ec := c.clone()
-			if neg != "" {
-				ec.facts = append(ec.facts, neg)
-			}
 			switch e := s.Else.(type) {
 			case *ast.BlockStmt:
-				a.block(e.List, ec)
-				elseTerm = terminates(e.List)
+				eEnd := a.block(e.List, ec)
+				if !terminates(e.List) {
+					ends = append(ends, c11End{eEnd, a.declaredIdents(e), ebase})
+				}
 			default:
 				a.stmt(e, ec)
+				ends = append(ends, c11End{ec, a.declaredIdents(e), ebase})
 			}
+		} else {
+			ends = append(ends, c11End{ec, nil, ebase})
 		}
-		if !thenTerm {
-			c.havoc(assignedIdents(s.Body))
-		}
-		if s.Else != nil && !elseTerm {
-			c.havoc(assignedIdents(s.Else))
-		}
-		if thenTerm && neg != "" {
-			c.facts = append(c.facts, neg)
-		}
-		if elseTerm && pos != "" {
-			c.facts = append(c.facts, pos)
+		a.join(c, ends)
+		for n := range outerDecl {
+			c.forget(n)
 		}
 	case *ast.SwitchStmt:
+		outerDecl := map[string]bool{}
 		if s.Init != nil {
-			c = a.stmt(s.Init, c)
+			a.stmt(s.Init, c)
+			outerDecl = a.declaredIdents(s.Init)
 		}
-		tagTerm, tagKnown := "", false
+		tagTerm, tagKnown, tagStr := "", false, false
 		if s.Tag != nil {
 			a.scan(s.Tag, c)
-			tagTerm, tagKnown = a.intTerm(s.Tag, c)
+			if isStringT(a.typeOf(s.Tag)) {
+				tagTerm, tagKnown, tagStr = a.strLen(s.Tag, c), true, true
+			} else if isIntT(a.typeOf(s.Tag)) {
+				tagTerm, tagKnown = a.intTerm(s.Tag, c)
+			}
 		}
 		var seenNeg []string // negations of earlier cases
-		var after []string   // condition of each non-terminating case (for the join)
-		afterKnown := true
+		var ends []c11End
 		hasDefault := false
-		var defaultBody []ast.Stmt
+		fallsThrough := func(body []ast.Stmt) bool {
+			if len(body) == 0 {
+				return false
+			}
+			b, ok := body[len(body)-1].(*ast.BranchStmt)
+			return ok && b.Tok == token.FALLTHROUGH
+		}
+		// the default clause runs when no case matches, wherever it is written: collect the case conditions first
+		type clause struct {
+			cc    *ast.CaseClause
+			entry []string // facts on entry through the case test ("" entries dropped)
+		}
+		var clauses []clause
 		for _, cc0 := range s.Body.List {
 			cc := cc0.(*ast.CaseClause)
 			if cc.List == nil {
 				hasDefault = true
-				defaultBody = cc.Body
+				clauses = append(clauses, clause{cc: cc})
 				continue
 			}
 			var alts, negs []string
@@ -559,7 +2181,16 @@ func (a *c11An) stmt(st ast.Stmt, c c11Ctx) c11Ctx {
 			for _, e := range cc.List {
 				a.scan(e, c)
 				if s.Tag != nil {
-					if t, ok := a.intTerm(e, c); ok && tagKnown {
+					if tagStr {
+						if lit, ok := a.constStr(e); ok {
+							alts = append(alts, fmt.Sprintf("(%s = %d)", tagTerm, len(lit)))
+							if lit == "" {
+								negs = append(negs, "("+tagTerm+" <> 0)")
+							}
+						} else {
+							known = false
+						}
+					} else if t, ok := a.intTerm(e, c); ok && tagKnown {
 						alts = append(alts, "("+tagTerm+" = "+t+")")
 						negs = append(negs, "("+tagTerm+" <> "+t+")")
 					} else {
@@ -572,76 +2203,90 @@ func (a *c11An) stmt(st ast.Stmt, c c11Ctx) c11Ctx {
 					} else {
 						alts = append(alts, p)
 					}
-					if n != "" {
-						negs = append(negs, n)
-					} else {
-						negs = append(negs, "")
-					}
+					negs = append(negs, n)
 				}
 			}
-			bc := c.clone()
-			caseCond := ""
+			var entry []string
 			if known && len(alts) > 0 {
-				caseCond = "(" + strings.Join(alts, " \\/ ") + ")"
-				bc.facts = append(bc.facts, caseCond)
+				entry = append(entry, "("+strings.Join(alts, " \\/ ")+")")
 			}
-			for _, n := range seenNeg {
-				bc.facts = append(bc.facts, n)
-			}
-			a.block(cc.Body, bc)
-			if !terminates(cc.Body) {
-				if caseCond == "" {
-					afterKnown = false
-				} else {
-					after = append(after, caseCond)
-				}
-			}
+			entry = append(entry, seenNeg...)
+			clauses = append(clauses, clause{cc: cc, entry: entry})
 			for _, n := range negs {
 				if n != "" {
 					seenNeg = append(seenNeg, n)
 				}
 			}
-			if !known {
-				// an unknown case may have matched: later cases cannot assume its negation — nothing to add
+		}
+		prevFalls := false
+		var prevAssigned map[string]bool
+		for _, cl := range clauses {
+			bc := c.clone()
+			bbase := len(bc.facts)
+			if prevFalls {
+				// also entered from the end of the previous body: no case facts, and what that body assigned is unknown
+				bc.havoc(prevAssigned)
+				bc.dropWritten(map[string]bool{"*": true})
+			} else if cl.cc.List == nil {
+				bc.add(seenNeg...)
+			} else {
+				bc.add(cl.entry...)
+			}
+			bEnd := a.block(cl.cc.Body, bc)
+			prevFalls = fallsThrough(cl.cc.Body)
+			if prevFalls {
+				prevAssigned = assignedIdents(cl.cc)
+			} else if !terminates(cl.cc.Body) {
+				ends = append(ends, c11End{bEnd, a.declaredIdents(cl.cc), bbase})
 			}
 		}
-		dc := c.clone()
-		dc.facts = append(dc.facts, seenNeg...)
-		defCond := "True"
-		if len(seenNeg) > 0 {
-			defCond = "(" + strings.Join(seenNeg, " /\\ ") + ")"
+		if !hasDefault {
+			dc := c.clone()
+			dbase := len(dc.facts)
+			dc.add(seenNeg...)
+			ends = append(ends, c11End{dc, nil, dbase})
 		}
-		if hasDefault {
-			a.block(defaultBody, dc)
-			if !terminates(defaultBody) {
-				after = append(after, defCond)
-			}
-		} else {
-			after = append(after, defCond)
-		}
-		c.havoc(assignedIdents(s.Body))
-		if afterKnown && len(after) > 0 {
-			c.facts = append(c.facts, "("+strings.Join(after, " \\/ ")+")")
+		a.join(c, ends)
+		for n := range outerDecl {
+			c.forget(n)
 		}
 	case *ast.TypeSwitchStmt:
 		a.scan(s, newCtx())
 		c.havoc(assignedIdents(s))
+		c.dropPaths()
 	case *ast.ForStmt:
+		outerDecl := map[string]bool{}
 		if s.Init != nil {
-			c = a.stmt(s.Init, c)
+			a.stmt(s.Init, c)
+			outerDecl = a.declaredIdents(s.Init)
 		}
 		bodyAssigned := assignedIdents(s.Body)
+		postAssigned := assignedIdents(s.Post)
 		lc := c.clone()
 		lc.havoc(bodyAssigned)
-		// loop index facts: for i := K; i < len(x) ...; i++  (i not assigned in the body)
+		lc.havoc(postAssigned)
+		loopWrites := a.bodyWrites(s.Body, 0)
+		for _, n := range []ast.Node{s.Post, s.Cond} {
+			if n != nil && !isNilNode(n) {
+				for k := range a.bodyWrites(n, 0) {
+					loopWrites[k] = true
+				}
+			}
+		}
+		lc.dropWritten(loopWrites)
+		// loop index facts: for i := K; ...; i++ / i--  (i not assigned in the body)
 		if as, ok := s.Init.(*ast.AssignStmt); ok && len(as.Lhs) == 1 && len(as.Rhs) == 1 {
-			if id, ok := as.Lhs[0].(*ast.Ident); ok && !bodyAssigned[id.Name] {
-				if inc, ok := s.Post.(*ast.IncDecStmt); ok && inc.Tok == token.INC {
+			if id, ok := as.Lhs[0].(*ast.Ident); ok && !has(bodyAssigned, id.Name) && isIntT(a.typeOf(id)) && a.localVar(id) {
+				if inc, ok := s.Post.(*ast.IncDecStmt); ok {
 					if pid, ok := inc.X.(*ast.Ident); ok && pid.Name == id.Name {
 						if start, ok := a.intTerm(as.Rhs[0], lc); ok {
 							sym := a.fresh(id.Name)
 							lc.ints[id.Name] = sym
-							lc.facts = append(lc.facts, fmt.Sprintf("%s <= %s", start, sym))
+							if inc.Tok == token.INC {
+								lc.add(fmt.Sprintf("%s <= %s", start, sym))
+							} else {
+								lc.add(fmt.Sprintf("%s <= %s", sym, start))
+							}
 						}
 					}
 				}
@@ -649,105 +2294,134 @@ func (a *c11An) stmt(st ast.Stmt, c c11Ctx) c11Ctx {
 		}
 		if s.Cond != nil {
 			a.scan(s.Cond, lc)
-			if pos, _ := a.cond(s.Cond, lc); pos != "" {
-				lc.facts = append(lc.facts, pos)
-			}
+			pos, _ := a.cond(s.Cond, lc)
+			lc.add(pos)
 		}
 		a.block(s.Body.List, lc)
 		if s.Post != nil {
-			a.scan(s.Post, lc)
+			pc := lc.clone()
+			pc.havoc(bodyAssigned)
+			a.stmt(s.Post, pc)
 		}
 		c.havoc(bodyAssigned)
-		if s.Post != nil {
-			c.havoc(assignedIdents(s.Post))
+		c.havoc(postAssigned)
+		c.dropWritten(loopWrites)
+		for n := range outerDecl {
+			c.forget(n)
 		}
 	case *ast.RangeStmt:
 		a.scan(s.X, c)
 		bodyAssigned := assignedIdents(s.Body)
 		lc := c.clone()
 		lc.havoc(bodyAssigned)
-		if k, ok := s.Key.(*ast.Ident); ok && k.Name != "_" && !bodyAssigned[k.Name] {
-			if x, ok := s.X.(*ast.Ident); ok {
-				if sym, ok := lc.env[x.Name]; ok {
-					is := a.fresh(k.Name)
-					lc.ints[k.Name] = is
-					lc.facts = append(lc.facts, fmt.Sprintf("0 <= %s < %s", is, sym))
-				}
+		lc.dropWritten(a.bodyWrites(s.Body, 0))
+		var bound string
+		if x, ok := s.X.(*ast.Ident); ok {
+			bound = lc.env[x.Name]
+		}
+		if bound == "" && isStringT(a.typeOf(s.X)) {
+			if k := a.pathKey(s.X); k == "" || !has(bodyAssigned, strings.SplitN(k, ".", 2)[0]) {
+				bound = a.strLen(s.X, lc)
 			}
 		}
-		if v, ok := s.Value.(*ast.Ident); ok {
-			delete(lc.env, v.Name)
+		for _, kv := range []ast.Expr{s.Key, s.Value} {
+			if id, ok := kv.(*ast.Ident); ok {
+				lc.forget(id.Name)
+			}
+		}
+		if k, ok := s.Key.(*ast.Ident); ok && k.Name != "_" && !has(bodyAssigned, k.Name) && bound != "" && a.localVar(k) {
+			is := a.fresh(k.Name)
+			lc.ints[k.Name] = is
+			lc.add(fmt.Sprintf("0 <= %s < %s", is, bound))
 		}
 		a.block(s.Body.List, lc)
 		c.havoc(bodyAssigned)
+		c.dropWritten(a.bodyWrites(s.Body, 0))
+		for _, kv := range []ast.Expr{s.Key, s.Value} {
+			if id, ok := kv.(*ast.Ident); ok {
+				c.forget(id.Name)
+			}
+		}
 	case *ast.GoStmt:
 		a.scan(s.Call, newCtx())
 	case *ast.DeferStmt:
 		a.scan(s.Call, newCtx())
 	case *ast.SendStmt, *ast.SelectStmt, *ast.CommClause:
 		a.scan(s, newCtx())
+		c.havoc(assignedIdents(s))
+		c.dropPaths()
 	default:
 		a.scan(s, c)
 	}
-	return c
 }
 
-func c11Analyze(repo string) ([]c11Ob, error) {
+func has(m map[string]bool, k string) bool { _, ok := m[k]; return ok }
+
+func isNilNode(n ast.Node) bool {
+	switch v := n.(type) {
+	case ast.Stmt:
+		return v == nil
+	case ast.Expr:
+		return v == nil
+	}
+	return n == nil
+}
+
+// ---------------------------------------------------------------- driver
+
+type c11Stats struct {
+	Funcs, Reachable int
+	ByKind           map[string]int
+}
+
+func c11Analyze(repo string) ([]c11Ob, *c11Stats, error) {
+	w, err := c11Load(repo)
+	if err != nil {
+		return nil, nil, err
+	}
+	st := &c11Stats{ByKind: map[string]int{}}
 	var all []c11Ob
-	dirs := []string{"caskethttp", "caskettls", "onevent", "casketfile"}
-	for _, d := range dirs {
-		err := filepath.Walk(filepath.Join(repo, d), func(path string, info os.FileInfo, err error) error {
-			if err != nil || info.IsDir() || !strings.HasSuffix(path, ".go") || strings.HasSuffix(path, "_test.go") || strings.HasPrefix(info.Name(), "verif_export") {
-				return nil
-			}
-			fset := token.NewFileSet()
-			f, perr := parser.ParseFile(fset, path, nil, 0)
-			if perr != nil {
-				return perr
-			}
-			rel, _ := filepath.Rel(repo, path)
-			for _, decl := range f.Decls {
-				fd, ok := decl.(*ast.FuncDecl)
-				if !ok || fd.Body == nil {
-					continue
-				}
-				src := exprStr(fset, fd)
-				h := sha256.Sum256([]byte(src))
-				a := &c11An{fset: fset, file: rel, fn: fd.Name.Name, fnHash: hex.EncodeToString(h[:8])}
-				c := newCtx()
-				// []string / ...string parameters
-				for _, fld := range fd.Type.Params.List {
-					t := exprStr(fset, fld.Type)
-					if t == "[]string" || t == "...string" {
-						for _, n := range fld.Names {
-							s := a.fresh(n.Name)
-							c.env[n.Name] = s
-							c.facts = append(c.facts, "0 <= "+s)
-						}
-					}
-				}
-				a.block(fd.Body.List, c)
-				all = append(all, a.obs...)
-			}
-			return nil
-		})
-		if err != nil {
-			return nil, err
+	var fns []*types.Func
+	for o := range w.decls {
+		fns = append(fns, o)
+	}
+	sort.Slice(fns, func(i, j int) bool { return w.decls[fns[i]].decl.Pos() < w.decls[fns[j]].decl.Pos() })
+	for _, o := range fns {
+		f := w.decls[o]
+		fd := f.decl
+		src := exprStr(w.fset, fd)
+		h := sha256.Sum256([]byte(src))
+		a := &c11An{w: w, fset: w.fset, info: f.info, file: f.file, fn: fd.Name.Name, fnHash: hex.EncodeToString(h[:8]), reach: w.reach[o]}
+		a.prepare(fd, o)
+		st.Funcs++
+		if a.reach {
+			st.Reachable++
 		}
+		c := newCtx()
+		for _, fld := range fd.Type.Params.List {
+			for _, n := range fld.Names {
+				if isStrSliceT(a.typeOf(n)) && a.localVar(n) {
+					s := a.fresh(n.Name)
+					c.env[n.Name] = s
+					c.add("0 <= " + s)
+				}
+			}
+		}
+		a.block(fd.Body.List, c)
+		all = append(all, a.obs...)
 	}
 	sort.Slice(all, func(i, j int) bool { return all[i].ID < all[j].ID })
-	return all, nil
+	return all, st, nil
 }
 
 func init() {
 	registerGen("Gen_C11.v", func(repo string) (string, error) {
-		obs, err := c11Analyze(repo)
+		obs, st, err := c11Analyze(repo)
 		if err != nil {
 			return "", err
 		}
 		var sb strings.Builder
 		sb.WriteString("From Coq Require Import ZArith Lia.\nLocal Open Scope Z_scope.\n")
-		sb.WriteString(fmt.Sprintf("(* %d index/slice obligations on argument slices *)\n", len(obs)))
 		seen := map[string]bool{}
 		var kept []c11Ob
 		for _, o := range obs {
@@ -756,13 +2430,17 @@ func init() {
 			}
 			seen[o.ID] = true
 			kept = append(kept, o)
-			fmt.Fprintf(&sb, "(* %s:%d %s: %s *)\n%s", o.File, o.Line, o.Func, strings.ReplaceAll(o.Expr, "*)", "* )"), o.Lemma)
+			st.ByKind[o.Kind]++
 		}
-		names := make([]string, len(kept))
-		for i, o := range kept {
-			names[i] = o.ID
+		sb.WriteString(fmt.Sprintf("(* %d obligations: %d index/slice on argument slices, %d index/slice on strings, %d nil dereferences, %d nil-map writes; %d of %d functions are reachable from a registered directive *)\n",
+			len(kept), st.ByKind["slice"], st.ByKind["string"], st.ByKind["nil"], st.ByKind["map"], st.Reachable, st.Funcs))
+		for _, o := range kept {
+			fmt.Fprintf(&sb, "(* %s %s:%d %s: %s *)\n%s", o.Kind, o.File, o.Line, o.Func, strings.ReplaceAll(strings.ReplaceAll(o.Expr, "(*", "( *"), "*)", "* )"), o.Lemma)
 		}
 		fmt.Fprintf(&sb, "Definition c11_obligation_count : nat := %d%%nat.\n", len(kept))
+		for _, k := range []string{"slice", "string", "nil", "map"} {
+			fmt.Fprintf(&sb, "Definition c11_%s_obligation_count : nat := %s%%nat.\n", k, strconv.Itoa(st.ByKind[k]))
+		}
 		meta, _ := json.MarshalIndent(kept, "", " ")
 		if root := os.Getenv("VERIF_ROOT"); root != "" {
 			os.MkdirAll(filepath.Join(root, "run"), 0o755)
